@@ -9,12 +9,10 @@ import (
 	"net"
 	"net/http"
 	"net/url"
-	"os"
 	"strconv"
 	"strings"
 	"sync"
 	"sync/atomic"
-	"syscall"
 	"time"
 
 	"github.com/prometheus/client_golang/prometheus"
@@ -46,6 +44,7 @@ type caseRun struct {
 
 	tracker *connTracker         // rig b, family ctl: the proxy's side of every accepted socket
 	reg     *prometheus.Registry // rig a, family runend: the proxy's metrics
+	sigSet  []int                // rig a: the ShutdownSignals the proxy runs with (numbers)
 
 	dialMu         sync.RWMutex  // serialises client dials with the listener close / cancel
 	begun          bool          // under dialMu: shutdown has been initiated
@@ -363,11 +362,15 @@ func (cr *caseRun) startA() error {
 				cfg.PromRegistry = prometheus.NewRegistry() // the certificate-expiry metric needs one
 			}
 			if cr.c.Family == "runend" {
-				// a second SIGUSR1 during the drain ends it; the registry is read after Run returned
-				cfg.ShutdownSignals = []os.Signal{syscall.SIGUSR1}
+				// the registry is read after Run returned
 				cr.reg = prometheus.NewRegistry()
 				cfg.PromRegistry = cr.reg
 			}
+			if set, ok := cr.c.sigCfg(); ok {
+				// family runend: a second SIGUSR1 during the drain ends it; the signal matrix: the case's set, possibly empty
+				cfg.ShutdownSignals = osSignals(set)
+			}
+			cr.sigSet = signalNumbers(cfg.ShutdownSignals)
 		},
 	})
 	if err != nil {
